@@ -489,8 +489,8 @@ def check(ax, case, rec):
         rec.require("linsteps-length", len(got) == len(ref), [len(got), len(ref)])
         if len(got) == len(ref):
             rec.close("linsteps", maxdiff(got, np.array(ref, dtype=float)), 1e-12)
-            axis = 1 + (flag >> 1) % 2
-            axes = axis + 1 + (flag >> 2) % 2
+            axis = (flag >> 1) % 3  # 0 (the first column - not to be confused with None), 1 or 2
+            axes = axis + 1 + (case["seed"] % 2)
             vals = rng.uniform(-1, 1, axes)
             got2 = fm.linsteps(pts, num=num, endpoint=endpoint, axis=axis, axes=axes, values=vals)
             ref2 = np.ones((len(ref), axes)) * vals
